@@ -162,7 +162,13 @@ func (x *TExec) opConnect(st *TStep) { //nolint:cyclop
 	pi := st.P % len(TCPPeers)
 	p := TCPPeers[pi]
 	m := &ref.Msg{Method: ref.MethodConnect, Class: ref.ClassRequest, TxID: c.nextTx()}
-	m.Add(ref.AttrXORPeerAddress, ref.XorAddr(p.IP, p.Port, m.TxID))
+	if st.Mapped {
+		// the same peer, spelled ::ffff:a.b.c.d with family IPv6: the server accepts both spellings
+		m.Add(ref.AttrXORPeerAddress, ref.XorAddrMapped(p.IP, p.Port, m.TxID))
+		x.St.inc("tcp:connect-peer-in-mapped-spelling")
+	} else {
+		m.Add(ref.AttrXORPeerAddress, ref.XorAddr(p.IP, p.Port, m.TxID))
+	}
 	ui := x.userIdx(c, st)
 	t0 := time.Now()
 	x.w.gen.mu.Lock()
